@@ -49,7 +49,7 @@ Proof. exact run_inv. Qed.
    non-versioned-only flush; the second transaction gets id 2, the third creates none *)
 Definition C02_cfg : cfg :=
   mkcfg true false false false true
-    [mkcls true true 0 [mkcol true false; mkcol false false] []; mkcls false false 1 [mkcol true false] []].
+    [mkcls true true 0 [mkcol true false true; mkcol false false true] []; mkcls false false 1 [mkcol true false true] []].
 Definition C02_trace : list ev :=
   [ Flush [mkobj 0 [true;true] [] true false]
           [mkev 0 0 [Some 1; Some 5] [true;true] [] [0%nat;1%nat] false true [false;false]] [];
